@@ -341,6 +341,14 @@ pub struct Tweaks {
     /// the first output holds 0 lovelace (its amount goes to the change output instead; still balanced)
     #[serde(default)]
     pub zero_coin_output: bool,
+    /// extra (policy,name,qty) put into the FIRST output without a source (only when there are at least two outputs), so
+    /// that an asset's total is spread over two outputs
+    #[serde(default)]
+    pub phantom_first: Vec<(u8, u8, u64)>,
+    /// the collateral return (Babbage+, needs plutus + collateral_return) carries a one-asset bundle of this quantity
+    /// (0 included: the legacy `[address, value]` layout decodes a zero quantity)
+    #[serde(default)]
+    pub collateral_return_asset: Option<u64>,
 }
 
 pub fn forge(spec: &Spec) -> Result<Forged, String> {
@@ -496,6 +504,10 @@ pub fn forge_with(spec: &Spec, tw: &Tweaks) -> Result<Forged, String> {
             for (p, nm, q) in &tw.phantom_assets {
                 *a.entry((native_policy(*p), vec![b'a' + (nm % 6)])).or_insert(0) += *q as i128;
             }
+        } else if i == 0 && !tw.phantom_first.is_empty() {
+            for (p, nm, q) in &tw.phantom_first {
+                *a.entry((native_policy(*p), vec![b'a' + (nm % 6)])).or_insert(0) += *q as i128;
+            }
         } else if o.asset_share > 0 {
             for (k, q) in remaining.iter_mut() {
                 let take = (*q * o.asset_share as i128) / 256;
@@ -601,7 +613,14 @@ pub fn forge_with(spec: &Spec, tw: &Tweaks) -> Result<Forged, String> {
                 if p.collateral_return {
                     let ret = (*ccoin) / 4;
                     paid = *ccoin - ret;
-                    collateral_fields.push((16, output_node(era, spec.legacy_outputs, &key_addr(p.collateral_key), cx::uint(ret), None)));
+                    let value = match tw.collateral_return_asset {
+                        Some(q) => cx::array(vec![
+                            cx::uint(ret),
+                            cx::map(vec![(cx::bytes(&[0x77u8; 28]), cx::map(vec![(cx::bytes(b"ret"), cx::uint(q))]))]),
+                        ]),
+                        None => cx::uint(ret),
+                    };
+                    collateral_fields.push((16, output_node(era, spec.legacy_outputs, &key_addr(p.collateral_key), value, None)));
                 }
                 if p.total_collateral {
                     collateral_fields.push((17, cx::uint((paid as i64 + tw.total_collateral_delta).max(0) as u64)));
